@@ -13,6 +13,7 @@ tmp='/tmp/'+name+'.diff'
 open(tmp,'w').write(''.join(kept))
 md=open(d+name+'.md').read().strip().split('\n')
 subj=sys.argv[2] if len(sys.argv)>2 else re.sub(r'^C\d+\s*[—-]+\s*','',md[0]).strip()
+subj=re.sub(r'^(fix:\s*)+','',subj).lstrip('# ').strip()
 subj=subj[0].lower()+subj[1:]
 subj=subj.rstrip('.')
 body='\n'.join(l for l in md[1:] if l.strip())
